@@ -564,3 +564,329 @@ theorem condensePattern_tiles_of (m : Matcher) (edit : Kind → Kind) (src : Lis
   exact ⟨_, rfl, ht⟩
 
 end Harper
+
+namespace Harper
+
+/-! ### `condense_pattern`: whatever comes out -/
+
+theorem mem_of_mem_removeIndices {α} (xs : List α) : ∀ (i : Nat) (q : List Nat), ∀ x ∈ removeIndices i q xs, x ∈ xs := by
+  induction xs with
+  | nil => intro i q x hx; cases q <;> simp [removeIndices] at hx
+  | cons y ys ih =>
+    intro i q x hx
+    cases q with
+    | nil =>
+      simp only [removeIndices, List.mem_cons] at hx
+      rcases hx with rfl | hx
+      · simp
+      · exact List.mem_cons_of_mem _ (ih _ _ x hx)
+    | cons r q =>
+      simp only [removeIndices] at hx
+      split at hx
+      · exact List.mem_cons_of_mem _ (ih _ _ x hx)
+      · rcases List.mem_cons.mp hx with rfl | hx
+        · simp
+        · exact List.mem_cons_of_mem _ (ih _ _ x hx)
+
+theorem spanOf_foldl_min_le (ts : List Tok) (m : Nat) :
+    ts.foldl (fun m x => min (min m x.span.start) x.span.stop) m ≤ m := by
+  induction ts generalizing m with
+  | nil => exact Nat.le_refl _
+  | cons t ts ih => simp only [List.foldl_cons]; have := ih (min (min m t.span.start) t.span.stop); omega
+
+theorem spanOf_le_foldl_max (ts : List Tok) (m : Nat) :
+    m ≤ ts.foldl (fun m x => max (max m x.span.start) x.span.stop) m := by
+  induction ts generalizing m with
+  | nil => exact Nat.le_refl _
+  | cons t ts ih => simp only [List.foldl_cons]; have := ih (max (max m t.span.start) t.span.stop); omega
+
+theorem spanOf_foldl_max_le (ts : List Tok) (m n : Nat) (hm : m ≤ n) (h : ∀ t ∈ ts, t.span.start ≤ n ∧ t.span.stop ≤ n) :
+    ts.foldl (fun m x => max (max m x.span.start) x.span.stop) m ≤ n := by
+  induction ts generalizing m with
+  | nil => exact hm
+  | cons t ts ih =>
+    simp only [List.foldl_cons]
+    have := h t (by simp)
+    exact ih _ (by omega) (fun x hx => h x (List.mem_cons_of_mem _ hx))
+
+theorem spanOf_le_foldl_min (ts : List Tok) (m p : Nat) (hm : p ≤ m) (h : ∀ t ∈ ts, p ≤ t.span.start ∧ p ≤ t.span.stop) :
+    p ≤ ts.foldl (fun m x => min (min m x.span.start) x.span.stop) m := by
+  induction ts generalizing m with
+  | nil => exact hm
+  | cons t ts ih =>
+    simp only [List.foldl_cons]
+    have := h t (by simp)
+    exact ih _ (by omega) (fun x hx => h x (List.mem_cons_of_mem _ hx))
+
+/-- `TokenStringExt::span` takes minimum and maximum: the result is never reversed, and lies where all the
+endpoints lie -/
+theorem spanOf_bounds {slice : List Tok} {sp : Span} (h : spanOf slice = some sp) (p n : Nat)
+    (hb : ∀ t ∈ slice, (p ≤ t.span.start ∧ p ≤ t.span.stop) ∧ t.span.start ≤ n ∧ t.span.stop ≤ n) :
+    p ≤ sp.start ∧ sp.start ≤ sp.stop ∧ sp.stop ≤ n := by
+  cases slice with
+  | nil => simp [spanOf] at h
+  | cons t ts =>
+    simp only [spanOf, Option.some.injEq] at h
+    subst h
+    have ht := hb t (by simp)
+    have hts : ∀ x ∈ ts, _ := fun x hx => hb x (List.mem_cons_of_mem _ hx)
+    have h1 := spanOf_foldl_min_le ts (min t.span.start t.span.stop)
+    have h2 := spanOf_le_foldl_max ts (max t.span.start t.span.stop)
+    have h3 := spanOf_foldl_max_le ts (max t.span.start t.span.stop) n (by omega) (fun x hx => (hts x hx).2)
+    have h4 := spanOf_le_foldl_min ts (min t.span.start t.span.stop) p (by omega) (fun x hx => (hts x hx).1)
+    simp only
+    omega
+
+theorem condLoop_all (edit : Kind → Kind) (P : Span → Prop)
+    (hspan : ∀ slice sp, (∀ t ∈ slice, P t.span) → spanOf slice = some sp → P sp) :
+    ∀ (ms : List Span) (toks : List Tok) (rem : List Nat) (ts : List Tok) (r : List Nat),
+      condLoop edit ms toks rem = .ok (ts, r) → (∀ t ∈ toks, P t.span) → ∀ t ∈ ts, P t.span := by
+  intro ms
+  induction ms with
+  | nil => intro toks rem ts r h hin; simp only [condLoop] at h; cases h; exact hin
+  | cons m ms ih =>
+    intro toks rem ts r h hin
+    simp only [condLoop] at h
+    split at h
+    · cases h
+    · rename_i slice hs
+      split at h
+      · exact ih _ _ _ _ h hin
+      · split at h
+        · cases h
+        · rename_i sp hsp
+          split at h
+          · cases h
+          · refine ih _ _ _ _ h ?_
+            intro t ht
+            rcases List.mem_or_eq_of_mem_set ht with ht | rfl
+            · exact hin t ht
+            · exact hspan slice sp (fun x hx => hin x (sliceE_mem hs x hx)) hsp
+
+theorem condensePattern_all (m : Matcher) (edit : Kind → Kind) (P : Span → Prop)
+    (hspan : ∀ slice sp, (∀ t ∈ slice, P t.span) → spanOf slice = some sp → P sp)
+    (src : List Char) (toks out : List Tok) (h : condensePattern m edit src toks = .ok out)
+    (hin : ∀ t ∈ toks, P t.span) : ∀ t ∈ out, P t.span := by
+  unfold condensePattern at h
+  split at h
+  · cases h
+  · split at h
+    · cases h
+    · rename_i ts r hc
+      cases h
+      intro t ht
+      exact condLoop_all edit P hspan _ _ _ _ _ hc hin t (mem_of_mem_removeIndices _ _ _ t ht)
+
+theorem hspan_ends (n : Nat) : ∀ (slice : List Tok) (sp : Span),
+    (∀ t ∈ slice, t.span.start ≤ n ∧ t.span.stop ≤ n) → spanOf slice = some sp → sp.start ≤ n ∧ sp.stop ≤ n := by
+  intro slice sp h hsp
+  have := spanOf_bounds hsp 0 n (fun t ht => ⟨⟨Nat.zero_le _, Nat.zero_le _⟩, h t ht⟩)
+  omega
+
+theorem hspan_inb (n : Nat) : ∀ (slice : List Tok) (sp : Span),
+    (∀ t ∈ slice, t.span.start ≤ t.span.stop ∧ t.span.stop ≤ n) → spanOf slice = some sp →
+      sp.start ≤ sp.stop ∧ sp.stop ≤ n := by
+  intro slice sp h hsp
+  have := spanOf_bounds hsp 0 n (fun t ht => ⟨⟨Nat.zero_le _, Nat.zero_le _⟩, by have := h t ht; omega⟩)
+  omega
+
+
+/-! ### `condense_pattern` never panics, whatever the tokens, once the matches are in range -/
+
+theorem GoodMs.all {off : Nat} {ms : List Span} {n : Nat} (h : GoodMs off ms n) :
+    ∀ m ∈ ms, m.start < m.stop ∧ m.stop ≤ n := by
+  induction ms generalizing off with
+  | nil => intro m hm; cases hm
+  | cons a ms ih =>
+    obtain ⟨_, h2, h3, h4⟩ := h
+    intro m hm
+    rcases List.mem_cons.mp hm with rfl | hm
+    · exact ⟨h2, h3⟩
+    · exact ih h4 m hm
+
+theorem condLoop_total (edit : Kind → Kind) : ∀ (ms : List Span) (toks : List Tok) (rem : List Nat),
+    (∀ m ∈ ms, m.start < m.stop ∧ m.stop ≤ toks.length) → ∃ r, condLoop edit ms toks rem = .ok r := by
+  intro ms
+  induction ms with
+  | nil => intro toks rem _; exact ⟨_, rfl⟩
+  | cons m ms ih =>
+    intro toks rem h
+    obtain ⟨h1, h2⟩ := h m (by simp)
+    have hms : ∀ x ∈ ms, x.start < x.stop ∧ x.stop ≤ toks.length := fun x hx => h x (List.mem_cons_of_mem _ hx)
+    simp only [condLoop]
+    have hs : sliceE toks m.start m.stop = .ok ((toks.drop m.start).take (m.stop - m.start)) := by
+      unfold sliceE; rw [if_neg (by omega)]
+    rw [hs]
+    simp only
+    split
+    · exact ih toks rem hms
+    · cases hsp : spanOf ((toks.drop m.start).take (m.stop - m.start)) with
+      | none =>
+        exfalso
+        have hl : ((toks.drop m.start).take (m.stop - m.start)).length = m.stop - m.start := by
+          simp; omega
+        cases hd : (toks.drop m.start).take (m.stop - m.start) with
+        | nil => rw [hd] at hl; simp at hl; omega
+        | cons a b => rw [hd] at hsp; simp [spanOf] at hsp
+      | some sp =>
+        simp only
+        have hg : toks[m.start]? = some (toks[m.start]'(by omega)) := List.getElem?_eq_getElem (by omega)
+        rw [hg]
+        simp only
+        exact ih _ _ (by simpa using hms)
+
+theorem condensePattern_total_of (m : Matcher) (edit : Kind → Kind) (src : List Char) (P : List Tok → Prop)
+    (hp : PatOK m src P) (toks : List Tok) (hP : P toks) : ∃ out, condensePattern m edit src toks = .ok out := by
+  obtain ⟨found, hf, hinc, _⟩ := foundFrom_inc hp toks 0 hP
+  rw [Nat.zero_add] at hinc
+  have hg := filter_good _ found hinc
+  unfold condensePattern findAllMatches
+  rw [hf]
+  simp only
+  generalize hms : (if found.length < 2 then found else removeIndices 0 (overlapNext 1 found) found) = ms at hg
+  obtain ⟨⟨ts, r⟩, hc⟩ := condLoop_total edit ms toks [] hg.all
+  have : (if found.length < 2 then (Except.ok found : Except Panic (List Span))
+      else .ok (removeIndices 0 (overlapNext 1 found) found)) = .ok ms := by
+    rw [← hms]; split <;> rfl
+  rw [this]
+  simp only [hc]
+  exact ⟨_, rfl⟩
+
+/-! ### `condense_pattern` on ordered input with gaps and zero-width tokens -/
+
+theorem spanOf_gap {seg : List Tok} {p q : Nat} (h : Gap seg p q) (hne : seg ≠ []) :
+    ∃ sp, spanOf seg = some sp ∧ p ≤ sp.start ∧ sp.start ≤ sp.stop ∧ sp.stop ≤ q := by
+  cases hsp : spanOf seg with
+  | none => cases seg with
+    | nil => exact absurd rfl hne
+    | cons a b => simp [spanOf] at hsp
+  | some sp =>
+    exact ⟨sp, rfl, spanOf_bounds hsp p q (fun t ht => by have := h.mem t ht; omega)⟩
+
+theorem removeIndices_two_prefix (pre seg W : List Tok) (r : List Nat) :
+    removeIndices 0 ((r.map (· + seg.length)).map (· + pre.length)) (pre ++ (seg ++ W)) =
+      pre ++ (seg ++ removeIndices 0 r W) := by
+  rw [removeIndices_prefix_keep pre _ 0 _ (by
+    intro j hj
+    simp only [List.mem_map] at hj
+    obtain ⟨x, _, rfl⟩ := hj
+    omega)]
+  rw [removeIndices_shift]
+  rw [removeIndices_prefix_keep seg _ 0 _ (by
+    intro j hj
+    simp only [List.mem_map] at hj
+    obtain ⟨x, _, rfl⟩ := hj
+    omega)]
+  rw [removeIndices_shift]
+
+theorem condLoop_gap (edit : Kind → Kind) : ∀ (len : Nat) (ms : List Span), ms.length = len →
+    ∀ (toks : List Tok) (p q : Nat), Gap toks p q → GoodMs 0 ms toks.length →
+    ∃ ts r, condLoop edit ms toks [] = .ok (ts, r) ∧ Gap (removeIndices 0 r ts) p q := by
+  intro len
+  induction len with
+  | zero =>
+    intro ms hl toks p q h _
+    have : ms = [] := by cases ms <;> simp_all
+    subst this
+    exact ⟨toks, [], rfl, by rw [removeIndices_nil_q]; exact h⟩
+  | succ len ih =>
+    intro ms hl toks p q h hg
+    match ms, hl with
+    | m :: ms', hl =>
+      obtain ⟨g1, g2, g3, g4⟩ := hg
+      obtain ⟨pre, seg, l, rfl, hpre, hseg⟩ := split3 toks m.start m.stop (by omega) g3
+      obtain ⟨e1, gg1⟩ := g4.unshift m.start (by omega)
+      obtain ⟨e2, gg2⟩ := gg1.unshift (m.stop - m.start) (Nat.le_refl _)
+      generalize hms1 : ms'.map (unshSpan m.start) = ms1 at e1 e2 gg1 gg2
+      generalize hms2 : ms1.map (unshSpan (m.stop - m.start)) = ms2 at e2 gg2
+      have hl2 : ms2.length = len := by rw [← hms2, ← hms1]; simpa using hl
+      obtain ⟨p1, hP, hrest⟩ := h.of_append
+      obtain ⟨p2, hS, hL⟩ := hrest.of_append
+      have hlen : (pre ++ (seg ++ l)).length = pre.length + seg.length + l.length := by simp; omega
+      rw [hlen] at gg2 gg1 g3
+      have hll : pre.length + seg.length + l.length - m.start - (m.stop - m.start) = l.length := by omega
+      rw [hll, Nat.sub_self] at gg2
+      obtain ⟨ts2, r2, hc2, ht2⟩ := ih ms2 hl2 l p2 q hL gg2
+      obtain ⟨first, tl, rfl⟩ : ∃ first tl, seg = first :: tl := by
+        cases seg with
+        | nil => simp at hseg; omega
+        | cons a b => exact ⟨a, b, rfl⟩
+      have hs : sliceE (first :: tl ++ l) 0 (m.stop - m.start) = .ok (first :: tl) := by
+        unfold sliceE
+        rw [if_neg (by simp at hseg ⊢; omega)]
+        simp only [List.drop_zero, Nat.sub_zero]
+        rw [hseg.symm, List.take_left']
+        rfl
+      have hm : shSpan m.start ⟨0, m.stop - m.start⟩ = m := by
+        obtain ⟨s, e⟩ := m; simp only [shSpan] at *; congr 1 <;> omega
+      have step0 := condLoop_prefix edit pre (⟨0, m.stop - m.start⟩ :: ms1) ((first :: tl) ++ l) [] []
+      rw [List.map_cons, hpre, ← e1, hm, List.map_nil, List.append_nil] at step0
+      by_cases hcont : contiguous (first :: tl) = true
+      · obtain ⟨sp, hsp, b1, b2, b3⟩ := spanOf_gap hS (by simp)
+        let first' : Tok := ⟨sp, edit first.kind⟩
+        have hk : m.stop - m.start = (first' :: tl).length := by simp at hseg ⊢; omega
+        have step1 : condLoop edit (⟨0, m.stop - m.start⟩ :: ms1) ((first :: tl) ++ l) [] =
+            condLoop edit ms1 ((first' :: tl) ++ l) (rangeFrom 1 tl.length) := by
+          simp only [condLoop]
+          rw [hs]
+          simp only [hcont, Bool.not_true, Bool.false_eq_true, if_false, hsp]
+          simp only [List.cons_append, List.getElem?_cons_zero, List.set_cons_zero, List.nil_append]
+          congr 2
+          simp at hseg; omega
+        have step2 := condLoop_prefix edit (first' :: tl) ms2 l (rangeFrom 1 tl.length) []
+        rw [← hk, ← e2, List.map_nil, List.append_nil, hc2] at step2
+        rw [step1, step2] at step0
+        refine ⟨_, _, step0, ?_⟩
+        simp only [List.nil_append]
+        rw [removeIndices_prefix_keep pre _ 0 _ (by
+          intro j hj
+          simp only [List.mem_map] at hj
+          obtain ⟨x, _, rfl⟩ := hj
+          omega)]
+        rw [show 0 + pre.length = 0 + m.start by omega, removeIndices_shift]
+        have hkeep := removeIndices_prefix_keep [first'] (tl ++ ts2) 0
+          (rangeFrom 1 tl.length ++ r2.map (· + (m.stop - m.start))) (by
+            intro j hj
+            simp only [List.mem_append, List.mem_map] at hj
+            rcases hj with hj | ⟨x, _, rfl⟩
+            · have := rangeFrom_ge _ _ _ hj
+              simpa using this
+            · simp; omega)
+        simp only [List.cons_append, List.nil_append, List.length_singleton] at hkeep ⊢
+        rw [hkeep, removeIndices_range]
+        rw [show 0 + 1 + tl.length = 0 + (m.stop - m.start) by simp at hk; omega, removeIndices_shift]
+        exact hP.append ⟨b1, b2, ht2.mono b3 (Nat.le_refl _)⟩
+      · have hk : m.stop - m.start = (first :: tl).length := by simp at hseg ⊢; omega
+        have step1 : condLoop edit (⟨0, m.stop - m.start⟩ :: ms1) ((first :: tl) ++ l) [] =
+            condLoop edit ms1 ((first :: tl) ++ l) [] := by
+          simp only [condLoop]
+          rw [hs]
+          simp [hcont]
+        have step2 := condLoop_prefix edit (first :: tl) ms2 l [] []
+        rw [← hk, ← e2, List.map_nil, List.append_nil, hc2] at step2
+        rw [step1, step2] at step0
+        refine ⟨_, _, step0, ?_⟩
+        simp only [List.nil_append]
+        rw [hk, ← hpre, removeIndices_two_prefix]
+        exact hP.append (hS.append ht2)
+
+
+theorem condensePattern_gap_of (m : Matcher) (edit : Kind → Kind) (src : List Char) (P : List Tok → Prop)
+    (hp : PatOK m src P) (toks : List Tok) (p q : Nat) (hP : P toks) (h : Gap toks p q) :
+    ∃ out, condensePattern m edit src toks = .ok out ∧ Gap out p q := by
+  obtain ⟨found, hf, hinc, _⟩ := foundFrom_inc hp toks 0 hP
+  rw [Nat.zero_add] at hinc
+  have hg := filter_good _ found hinc
+  unfold condensePattern findAllMatches
+  rw [hf]
+  simp only
+  generalize hms : (if found.length < 2 then found else removeIndices 0 (overlapNext 1 found) found) = ms at hg
+  obtain ⟨ts, r, hc, ht⟩ := condLoop_gap edit ms.length ms rfl toks p q h hg
+  have : (if found.length < 2 then (Except.ok found : Except Panic (List Span))
+      else .ok (removeIndices 0 (overlapNext 1 found) found)) = .ok ms := by
+    rw [← hms]; split <;> rfl
+  rw [this]
+  simp only [hc]
+  exact ⟨_, rfl, ht⟩
+
+end Harper
